@@ -68,6 +68,7 @@ ASSUMPTIONS = {
     ],
     "C27": [
         "the sequential references (edge-list PageRank with every iterate kept; sort-based label histogram) are correct renderings of LDBC Graphalytics PR and CDLP",
+        "cdlp with max_iterations = k must return the labelling after k synchronous rounds, or an earlier one only if that is a fixed point (then all later rounds equal it): a labelling that merely repeats with period 2 is not converged",
         "graphs are simple (no self-loops, no parallel edges) as in LDBC datasets",
         "page_rank does not expose the number of iterations executed: it is inferred as the reference iterate(s) the result equals within 1e-9 relative",
         "a stopping decision within 1e-12 relative of the tolerance may legitimately go either way against the reference; what is then required is that thread counts/schedules agree with each other",
@@ -75,8 +76,8 @@ ASSUMPTIONS = {
     ],
 }
 RULES = {
-    "C34": "case seed -> solver variant = seed mod 35 and three problems (smooth: wide box, sphere/L1/ridge, every draw matters; ties: step/constant objective, many equal fitness values; edgy: a thin (1e-6) or point (lo==hi) coordinate, any objective), each = (box dim 1-3 [native big class 1-6], pop 4-8 [4-12], 2-4 iterations [2-8], per-coordinate bounds drawn from sym/pos/neg/thin(1e-6)/lopsided/point(lo==hi), objective from sphere/L1/constant/step/linear/ridge (MO: schaffer/conflict/step-pair/constant, 2-3 objectives), penalty none/quadratic/step, solver seed). Each case is solved on a 1-thread pool and on a 3-thread pool [native: 1,3,8] in one process; the results must be bit-identical and each must satisfy the invariants. An evaluation = one execution of one case seed (its three problems on all its pools). Non-trivial = the problem's objective was evaluated on >= 2 distinct rayon workers during the multi-thread solve (measured via rayon::current_thread_index inside the objective; solvers that parallelise only non-fitness work therefore count as trivial). Distinct = distinct (solver, case seed, size class).",
-    "C27": "case seed -> (kind = seed mod 6: page_rank with iteration cap only / page_rank with a tolerance that clearly stops it / page_rank with the tolerance placed on an iteration's L1 change +-2ulp / cdlp x3; graph of 1000-1003 nodes [native big class: 1-3000, both sides of the threshold] with shuffled non-contiguous ids, 5-40% dangling nodes, uniform or clustered targets, 0-50% reciprocal edges; damping, redistribution flag, 2-4 iterations [2-30]). Results are compared with the sequential LDBC references (cdlp: labels identical; page_rank: within 1e-9 relative of the iterate the tolerance selects, sum = 1 when redistributing) and, for boundary cases, between 1 and 3 threads [native: 1,3,8]. Plus, natively, every simple directed graph on <= 4 nodes. An evaluation = one process-level execution of one case. Non-trivial = n >= 1000 (the crate's rayon branch) on a pool of more than one thread. Distinct = distinct (algorithm, case seed, size class).",
+    "C34": "case seed -> solver variant = seed mod 35 and four problems (smooth: wide box, sphere/L1/ridge, every draw matters; ties: step/constant objective, many equal fitness values; edgy: a thin (1e-6) or point (lo==hi) coordinate, any objective; corner: asymmetric box whose bounds are decimal fractions (tenths/hundredths/thousandths), small rationals, multiples of pi/e/sqrt2/ln2, random 53-bit values, a few ulps wide, lopsided/positive/negative - lower+upper, upper-lower and the centre are all rounded - with a concave (minus squared / minus L1 distance to a reference point: every corner a local optimum), linear (no zero slope) or distance-to-a-corner objective, so that the solve ends ON the bounds and the solver's clamping / reflection / opposition arithmetic produces the returned coordinates; in-bounds is judged exactly), each = (box dim 1-3 [native big class 1-6], pop 4-8 [4-12], 2-4 iterations [2-8; corner up to 30], per-coordinate bounds, objective (MO: schaffer/conflict/step-pair/constant/far-near/slopes, 2-3 objectives), penalty none/quadratic/step, solver seed). Each case is solved on a 1-thread pool and on a 3-thread pool [native: 1,3,8] in one process; the results must be bit-identical and each must satisfy the invariants. Natively every case seed additionally solves 5 further corner problems on the 1-thread pool (the in-bounds / consistency / history clauses quantify over inputs, not schedules). An evaluation = one execution of one case seed (its problems on all its pools). Non-trivial = the problem's objective was evaluated on >= 2 distinct rayon workers during the multi-thread solve (measured via rayon::current_thread_index inside the objective; solvers that parallelise only non-fitness work therefore count as trivial). Distinct = distinct (solver, case seed, size class).",
+    "C27": "case seed -> (kind = seed mod 6: page_rank with iteration cap only / page_rank with a tolerance that clearly stops it / page_rank with the tolerance placed on an iteration's L1 change +-2ulp / cdlp on a random graph x2 / cdlp on a structured graph; random graph of 1000-1003 nodes [native big class: 1-3000, both sides of the threshold] with shuffled non-contiguous ids, 5-40% dangling nodes, uniform or clustered targets, 0-50% reciprocal edges; structured graph = disjoint union of motifs laid over a shuffled index order (matching / paths of 3 / stars / paths / bicliques / cliques / mixed motifs incl. cycles and small random components / one random bipartite graph / motifs next to a random part; random edge directions, 0-100% mutual edges): on these the synchronous labelling settles within a few rounds, mostly into a period-2 oscillation WITHOUT a fixed point (cliques: a fixed point), so the specified labelling depends on the configured round count; damping, redistribution flag, 2-4 iterations [2-30]; cdlp max_iterations: random graphs 2 [native: k and k+1, k in 1-12]; structured graphs s and s+1 where s = the round at which the sequential labelling first repeats (clamped to 2-3 under Miri), natively also a random consecutive pair and one of 30/51/99/100/101 - every count a separate call judged against the reference labelling of exactly that many rounds). Results are compared with the sequential LDBC references (cdlp: labels identical, the reference stops only at a true fixed point or the configured count; page_rank: within 1e-9 relative of the iterate the tolerance selects, sum = 1 when redistributing) and, for boundary cases, between 1 and 3 threads [native: 1,3,8]. Plus, natively, every simple directed graph on <= 4 nodes (cdlp with 4 and 5 rounds). An evaluation = one process-level execution of one case. Non-trivial = n >= 1000 (the crate's rayon branch) on a pool of more than one thread. Distinct = distinct (algorithm, case seed, size class).",
 }
 
 
